@@ -336,8 +336,10 @@ __in_range_p(struct dt_dt_s now, const struct dseq_clo_s *clo)
 				now.t.u <= clo->lst.t.u && now.d.u == 0U;
 		} else {
 			/* dseq A B  with A > B and wrap-around,
-			 * carries have kindly been stored in d.u */
-			return now.t.u <= clo->lst.t.u || now.d.u == 0U;
+			 * carries have kindly been stored in d.u,
+			 * the day of A up from A, the day after up to B */
+			return (now.d.u == 0U && now.t.u >= clo->fst.t.u) ||
+				(now.d.u == 1U && now.t.u <= clo->lst.t.u);
 		}
 	} else if (clo->dir < 0) {
 		if (clo->fst.t.u > clo->lst.t.u) {
@@ -346,8 +348,10 @@ __in_range_p(struct dt_dt_s now, const struct dseq_clo_s *clo)
 				now.t.u >= clo->lst.t.u && now.d.u == 0U;
 		} else {
 			/* count down from A to B with wrap around,
-			 * carries have kindly been stored in d.u */
-			return now.t.u >= clo->lst.t.u || now.d.u == 0U;
+			 * carries have kindly been stored in d.u,
+			 * the day of A down from A, the day before down to B */
+			return (now.d.u == 0U && now.t.u <= clo->fst.t.u) ||
+				(now.d.u == -1U && now.t.u >= clo->lst.t.u);
 		}
 	}
 	return false;
@@ -418,6 +422,12 @@ __fixup_fst(struct dseq_clo_s *clo)
 
 	/* assume clo->dir has been computed already */
 	old = tmp = clo->lst;
+	if (dt_sandwich_only_t_p(tmp) &&
+	    ((clo->dir > 0 && clo->fst.t.u >= clo->lst.t.u) ||
+	     (clo->dir < 0 && clo->fst.t.u <= clo->lst.t.u))) {
+		/* the bounds wrap around midnight, LST is a day from FST */
+		old.d.u = tmp.d.u = clo->dir;
+	}
 	date_neg_dur(clo->ite, clo->nite);
 	while (__in_range_p(tmp, clo)) {
 		old = tmp;
